@@ -78,7 +78,8 @@ def run(tier, mode):
             dist['normal'] += 1
         # ---- every section rejected: colon required on colon-less text
         if has_tr and has_secword and ':' not in t and i % 2 == 0:
-            d2 = H.call(lambda: pytrs.PLSSDesc(t, config='sec_colon_required'))
+            rc_cfg = r.choice(['sec_colon_required', 'sec_colon_required', 'sec_colon_required,sec_within', 'sec_colon_required,segment,sec_within'])
+            d2 = H.call(lambda: pytrs.PLSSDesc(t, config=rc_cfg))
             n_or += 1
             if isinstance(d2, H.Exn):
                 continue
@@ -86,7 +87,7 @@ def run(tier, mode):
                 dist['fallback_rejected'] += 1
                 trimmed = d2.pp_desc != pytrs.parser.plssdesc.plss_parse.cleanup_desc(d2.pp_desc)
                 if len(d2.tracts) != 1 or d2.tracts[0].desc != d2.pp_desc:
-                    fail('fallback_rejected_sections', {'text': t, 'config': 'sec_colon_required'}, [(x.trs, x.desc) for x in d2.tracts][:3], [('*', d2.pp_desc)],
+                    fail('fallback_rejected_sections', {'text': t, 'config': rc_cfg}, [(x.trs, x.desc) for x in d2.tracts][:3], [('*', d2.pp_desc)],
                          'C11-fallback-cleaned' if (len(d2.tracts) == 1 and trimmed and d2.tracts[0].desc == pytrs.parser.plssdesc.plss_parse.cleanup_desc(d2.pp_desc)) else None)
                 else:
                     nontriv.add(('rejected', t))
